@@ -51,9 +51,9 @@ func genC12(t *rapid.T) c12Case {
 	for i := 0; i < nc; i++ {
 		k := call{ID: i + 1, Terminal: rapid.IntRange(0, n-1).Draw(t, "target"), Cmd: rapid.SampledFrom(commandIDs).Draw(t, "cmd")}
 		perTerm[k.Terminal]++
-		k.Behaviour = rapid.SampledFrom([]string{"answer", "answer", "delay", "dup", "wrong_serial", "ignore", "hold", "hold", "late"}).Draw(t, "behaviour")
+		k.Behaviour = rapid.SampledFrom([]string{"answer", "answer", "glued", "delay", "dup", "wrong_serial", "ignore", "hold", "hold", "late"}).Draw(t, "behaviour")
 		switch k.Behaviour {
-		case "answer", "dup":
+		case "answer", "dup", "glued":
 			k.TimeoutMs = rapid.SampledFrom([]int{300, 600, 1500}).Draw(t, "timeout")
 		case "delay":
 			k.TimeoutMs = rapid.SampledFrom([]int{600, 1200}).Draw(t, "timeout")
@@ -106,6 +106,9 @@ func c12Scenario(c c12Case) Scenario {
 			if b == "late" {
 				b = "delay"
 			}
+			if b == "glued" {
+				b = "answer_glued"
+			}
 			rules = append(rules, Rule{Cmd: k.Cmd, Prefix: k.body()[:3], Behaviour: b, DelayMs: k.DelayMs})
 			if k.Behaviour == "hold" {
 				held++
@@ -138,7 +141,7 @@ func c12Scenario(c c12Case) Scenario {
 			}
 			steps = append(steps, Step{Op: "wait_held", N: held, DeadlineMs: 2000}, Step{Op: "release", Mode: mode})
 		}
-		steps = append(steps, Step{Op: "barrier", Barrier: "calls_done", Parties: parties},
+		steps = append(steps, Step{Op: "barrier", Barrier: "calls_done", Parties: parties}, Step{Op: "pause", PauseUs: 60000}, // quiet: whatever the server owes arrives now
 			Step{Op: "write", Hex: frame(id, 0x0002, sentinelSerial, nil)}, Step{Op: "wait_frames", N: 1 << 30, DeadlineMs: 300}, Step{Op: "close", Mode: "fin"})
 		sc.Actors = append(sc.Actors, Actor{Name: fmt.Sprintf("t%d", i), Kind: "terminal", Steps: steps})
 	}
@@ -220,6 +223,11 @@ func checkC12(c c12Case, _ *kit.Collector) kit.Result {
 		}
 		// plain traffic is still answered: one 0x8001 per heartbeat/location
 		wantReplies := 2 + c.Plain[i]
+		for _, k := range c.Calls {
+			if k.Terminal == i && k.Behaviour == "glued" {
+				wantReplies++ // the heartbeat that left the terminal glued to the response
+			}
+		}
 		if i == 0 {
 			wantReplies += c.Preload
 		}
@@ -227,6 +235,41 @@ func checkC12(c c12Case, _ *kit.Collector) kit.Result {
 		for _, f := range frames {
 			if f.ID == 0x8001 {
 				got++
+			}
+		}
+		// a heartbeat that left glued to a response is answered without waiting for later traffic: its general response
+		// reaches the terminal before the terminal's closing heartbeat is sent (tens of milliseconds later)
+		var sentinelSeq int64 = -1
+		for _, e := range h.Events {
+			if e.Actor == name && e.Kind == "sent" {
+				if f, why := ref.Validate(e.Data); why == "" && f.ID == 0x0002 && f.Serial == sentinelSerial {
+					sentinelSeq = e.Seq
+				}
+			}
+		}
+		for _, e := range h.Events {
+			if e.Actor != name || e.Kind != "sent" {
+				continue
+			}
+			frs, _ := ref.SplitFrames(e.Data)
+			if len(frs) != 2 {
+				continue
+			}
+			hbf, why := ref.Validate(frs[0])
+			if why != "" || hbf.ID != 0x0002 {
+				continue
+			}
+			var at int64 = -1
+			for _, r := range h.Events {
+				if r.Actor == name && r.Kind == "recv" {
+					if rf, w := ref.Validate(r.Data); w == "" && rf.ID == 0x8001 && len(rf.Body) == 5 && ref.BE16(rf.Body) == hbf.Serial && ref.BE16(rf.Body[2:]) == 0x0002 {
+						at = r.Seq
+					}
+				}
+			}
+			if sentinelSeq >= 0 && (at < 0 || at > sentinelSeq) {
+				res.Err = fmt.Errorf("SOFT %s: the heartbeat (serial %d) sent in one write with a command response was not answered until the terminal sent its next message", name, hbf.Serial)
+				return res
 			}
 		}
 		if got != wantReplies {
@@ -271,8 +314,11 @@ func checkC12(c c12Case, _ *kit.Collector) kit.Result {
 		var answers [][]byte
 		for _, e := range h.Events {
 			if e.Actor == name && e.Kind == "sent" {
-				if f, why := ref.Validate(e.Data); why == "" && len(f.Body) >= 2 && int(ref.BE16(f.Body)) == cmdSerial && f.ID != 0x0002 && f.ID != 0x0200 {
-					answers = append(answers, e.Data)
+				frs, _ := ref.SplitFrames(e.Data) // one write may carry the response and a heartbeat
+				for _, fr := range frs {
+					if f, why := ref.Validate(fr); why == "" && len(f.Body) >= 2 && int(ref.BE16(f.Body)) == cmdSerial && f.ID != 0x0002 && f.ID != 0x0200 {
+						answers = append(answers, fr)
+					}
 				}
 			}
 		}
@@ -282,7 +328,7 @@ func checkC12(c c12Case, _ *kit.Collector) kit.Result {
 			res.Labels = append(res.Labels, "default_timeout_"+k.Behaviour)
 		}
 		switch k.Behaviour {
-		case "answer", "delay", "dup", "hold":
+		case "answer", "delay", "dup", "hold", "glued":
 			if r.Err != "" || !r.Flag {
 				// timing-dependent (the response raced the timer only if the machine stalled): soft evidence, re-run
 				res.Err = fmt.Errorf("SOFT call %d (%#04x, timeout %d ms): the terminal answered serial %d in time (%s) but the call returned error %q after %d ms", k.ID, k.Cmd, k.TimeoutMs, cmdSerial, k.Behaviour, r.Err, dur)
